@@ -77,6 +77,11 @@ func contractMentions(c *Contract, prop string) bool {
 				return true
 			}
 		}
+		for _, cl := range l.Steps {
+			if hasPropLabel(cl.Labels, prop) {
+				return true
+			}
+		}
 	}
 	for _, ac := range c.AtCalls {
 		if hasPropLabel(ac.Clause.Labels, prop) {
@@ -324,7 +329,9 @@ func runCheck(eng *Engine, args []string, tier string, timeout, par int) int {
 		// failed: known finding?
 		isKnown := false
 		for _, kf := range known.Findings {
-			if kf.Property == prop && kf.Obligation == o.Name {
+			// a finding is identified by the obligation that fails: its name up to the block / return suffix (so that an
+			// unrelated edit that renumbers basic blocks does not turn the finding into an alarm)
+			if kf.Property == prop && kf.Obligation != "" && (kf.Obligation == o.Name || strings.HasPrefix(o.Name, kf.Obligation+"@")) {
 				isKnown = true
 				knownHit = append(knownHit, fmt.Sprintf("KNOWN-FINDING: property=%s %s [%s]", prop, kf.What, kf.Obligation))
 			}
